@@ -560,4 +560,47 @@ theorem groups_geometry (P : NumPr) (hP : NumExact P) (is : List Instr) (final :
   have h := runInstrs_sound P hP final is {} {} {} .normal ⟨rfl, rfl, rfl, rfl⟩ ⟨⟨rfl, rfl⟩, ⟨rfl, rfl⟩⟩ hok hz'
   exact h.segs
 
+/-! ## decidable form of the scanner-side guards -/
+
+def coordOkB (k : Kind) (i : Nat) (c : Coord) : Bool :=
+  if isFlagIdx k i then ((c.lx.headD ' ' == '1') && c.v == 1) || (!(c.lx.headD ' ' == '1') && c.v == 0)
+  else c.v == numVal c.lx
+
+def coordsOkB (k : Kind) : Nat → List Coord → Bool
+  | _, [] => true
+  | i, c :: r => coordOkB k i c && coordsOkB k (i + 1) r
+
+theorem coordsOk_of_B (k : Kind) : ∀ (cs : List Coord) (i : Nat), coordsOkB k i cs = true → CoordsOk k i cs := by
+  intro cs
+  induction cs with
+  | nil => intro i _; trivial
+  | cons c r ih =>
+    intro i h
+    simp only [coordsOkB, Bool.and_eq_true] at h
+    refine ⟨?_, ih _ h.2⟩
+    have h1 := h.1
+    unfold coordOkB at h1
+    unfold CoordOk
+    cases hf : isFlagIdx k i with
+    | true =>
+      simp only [hf, if_true, Bool.or_eq_true, Bool.and_eq_true, beq_iff_eq, Bool.not_eq_true'] at h1 ⊢
+      rcases h1 with ⟨a, b⟩ | ⟨a, b⟩
+      · exact Or.inl ⟨by simpa using a, b⟩
+      · exact Or.inr ⟨by simpa using a, b⟩
+    | false =>
+      simp only [hf, Bool.false_eq_true, if_false, beq_iff_eq] at h1 ⊢
+      exact h1
+
+def instrOkB (ins : Instr) : Bool :=
+  match instrArity ins.k ins.cs.length with
+  | none => true
+  | some di => (chunks di ins.cs.length ins.cs).all (coordsOkB ins.k 0)
+
+theorem instrOk_of_B (ins : Instr) (h : instrOkB ins = true) : InstrOk ins := by
+  intro di hdi g hg
+  unfold instrOkB at h
+  rw [hdi] at h
+  simp only [List.all_eq_true] at h
+  exact coordsOk_of_B _ _ _ (h g hg)
+
 end Verif.Proofs.SvgInduct
